@@ -105,7 +105,7 @@ def run(res, prop, tier):
         'coroutine sources / co_await are not part of the pipe harness (C13)',
     ]
     xproblems = extract(prop)
-    ok, broken = C.proof_stage(res, prop)
+    ok, broken = C.proof_stage(res, prop, drivers=['ymdriver_pipe'])   # dedicated executable: lean/Driver/Main_pipe.lean
     broken = xproblems + broken
     nq, nt = SIZES[prop]
     prop_fail, corr_fail = pipe.check(res, prop, tier, nq, nt, twins=(prop == 'C12'), exhaustive_steps=2 if prop == 'C02' else 1)
